@@ -110,6 +110,10 @@ func (b *memKV) emplace(k, cls string, bs []byte) error {
 func (b *memKV) replace(k, cls string, bs []byte) error {
 	b.mu.Lock()
 	defer b.mu.Unlock()
+	if entry := b.m[k]; entry != nil {
+		entry.setBytes(bs)
+		return nil
+	}
 	b.m[k] = newMemEntry(cls, bs)
 	return nil
 }
